@@ -168,6 +168,9 @@ class Theory:
     def seq_prod(self, interp, seq):
         return None
 
+    def seq_sum(self, interp, seq, start):
+        return None
+
     def type_of(self, interp, v):
         return None
 
